@@ -13,6 +13,8 @@ A LATER REQUEST is sensitive to one of them:
                                                 -> the joining automaton reads both contexts
   text with a variation selector the font lacks -> not_found_variation_selector
   text without any property call                -> direction / script / language / cluster level defaults
+  letters with alternates under `rand`          -> the position of the PRNG the alternates are drawn from (kind `random`:
+                                                   earlier uses that drew k alternates; fonts: generated + the corpus font)
 The oracle is always the same request through `UnicodeBuffer::new()`.
 
 Nothing here knows what a particular change breaks: families are (bases, marks, joining letters) of a script, the
@@ -102,6 +104,117 @@ def residue_font():
     if not os.path.exists(p) or open(p, "rb").read() != data:
         open(p, "wb").write(data)
     return p
+
+
+# ------------------------------------------------------------------------------------------------------------------
+# residue kind `random`: the PRNG position of the `rand` feature
+
+RAND_LETTERS = [0x54, 0x55, 0x56, 0x61, 0x62, 0x66, 0x69, 0x41]
+RAND_CORPUS_FONT = "in-house/5bb74492f5e0ffa1fbb72e4c881be035120b6513.ttf"      # AlternateSubst for T U V under `rand`
+F_RAND = "72616e64"
+
+
+def rand_recipe(r):
+    """A font whose GSUB has AlternateSubst lookups under `rand` (left at its default value the alternate is drawn from the
+    minstd PRNG of the apply context): 4-7 of the letters covered by alternate sets of 2-5 glyphs with distinct advances, the
+    rest uncovered; one font in two has a SECOND alternate lookup under `rand` (over the first one's outputs: two draws per
+    letter), one in three also lists the lookup under `salt` (an ordinary, non-random feature), one in two has a GPOS kern
+    lookup over the alternates (the positioning pass sees the drawn glyphs).  -> (recipe, covered letters, uncovered)"""
+    letters = list(RAND_LETTERS)
+    gid = {c: 1 + i for i, c in enumerate(letters)}
+    gid[0x20] = len(letters) + 1
+    n = len(letters) + 2
+    covered = sorted(r.sample(letters, r.range(4, 7)))
+    alts = {}
+    for c in covered:
+        k = r.range(2, 5)
+        alts[gid[c]] = list(range(n, n + k))
+        n += k
+    lookups = [{"type": 3, "flag": 0, "subtables": [{"coverage": sorted(alts), "alternates": [alts[g] for g in sorted(alts)]}]}]
+    feats = [{"tag": "rand", "lookups": [0]}]
+    first_out = sorted(g for v in alts.values() for g in v)
+    if r.chance(1, 2):
+        cov2 = sorted(r.sample(first_out, r.range(1, len(first_out))))
+        alts2 = {}
+        for g in cov2:
+            k = r.range(2, 5)
+            alts2[g] = list(range(n, n + k))
+            n += k
+        lookups.append({"type": 3, "flag": 0, "subtables": [{"coverage": cov2, "alternates": [alts2[g] for g in cov2]}]})
+        feats[0]["lookups"].append(1)
+    if r.chance(1, 3):
+        feats.append({"tag": "salt", "lookups": [0]})
+    tags = ["DFLT", "latn"]
+    scripts = lambda nf: [{"tag": t, "default": {"required": None, "features": list(range(nf))}, "langs": []} for t in tags]
+    rec = {"num_glyphs": n, "cmap": gid, "advances": [500 + 37 * g for g in range(n)],
+           "gsub": {"scripts": scripts(len(feats)), "features": feats, "lookups": lookups}}
+    if r.chance(1, 2):
+        lefts = sorted(r.sample(list(range(1, n)), min(6, n - 1)))
+        rec["gpos"] = {"scripts": scripts(1), "features": [{"tag": "kern", "lookups": [0]}],
+                       "lookups": [{"type": 2, "flag": 0, "subtables": [{"format": 1, "coverage": lefts, "pairsets": [
+                           [(g2, {"xAdvance": r.choice([-70, -30, 20, 55])}, None) for g2 in sorted(r.sample(list(range(1, n)), min(5, n - 1)))]
+                           for _ in lefts]}]}]}
+    return rec, covered, [c for c in letters if c not in covered] + [0x20]
+
+
+def rand_fonts(r, k):
+    """k generated fonts (files under harness/target/c05fonts, named by content) and the corpus font that has an AlternateSubst
+    lookup under `rand`: [(path, covered letters, other letters)]"""
+    import fontbuild, hashlib
+    d = os.path.join(vlib.HARN, "target", "c05fonts")
+    os.makedirs(d, exist_ok=True)
+    out = []
+    for _ in range(k):
+        rec, cov, unc = rand_recipe(r)
+        data = fontbuild.build(rec)
+        p = os.path.join(d, f"rand-{hashlib.sha1(data).hexdigest()[:12]}.ttf")
+        if not os.path.exists(p):
+            open(p, "wb").write(data)
+        out.append((p, cov, unc))
+    cf = os.path.join(vlib.REPO, "tests", "fonts", RAND_CORPUS_FONT)
+    if os.path.exists(cf):
+        out.append((cf, [0x54, 0x55, 0x56], [0x20, 0x41]))
+    return out
+
+
+def rand_text(r, cov, unc, lo, hi):
+    """mostly letters the `rand` lookup covers (each one draws), some it does not"""
+    return [r.choice(cov) if (not unc or r.chance(5, 6)) else r.choice(unc) for _ in range(r.range(lo, hi))]
+
+
+def rand_feats(r):
+    """feature string of the request: mostly none (rand at its default: random), sometimes an explicit alternate, a range, the
+    feature switched off, or an unrelated feature"""
+    k = r.below(10)
+    if k < 6: return "-"
+    if k == 6: return f"{F_RAND}:{r.range(1, 3)}:0:4294967295"
+    if k == 7: return f"{F_RAND}:{r.range(1, 2)}:{r.below(3)}:{r.range(3, 6)}"
+    if k == 8: return f"{F_RAND}:0:0:4294967295"
+    return "6b65726e:0:0:4294967295"
+
+
+def rand_use(r, cov, unc):
+    """ops of an EARLIER use that advances the PRNG: 1-3 shapings (recycled in between) of texts that draw k alternates each"""
+    ops = []
+    for j in range(r.range(1, 3)):
+        if j:
+            ops.append("clear")
+        ops.append("push " + hx(rand_text(r, cov, unc, 1, 9)))
+        if r.chance(1, 3): ops.append(f"dir {r.range(1, 2)}")
+        if r.chance(1, 3): ops.append("script Latn")
+        ops.append(f"flags {r.choice([0, 0, 1, 3])}")
+        ops.append(r.choice(["shape -", "shape -", "plan -", "shape " + rand_feats(r)]))
+    return ops
+
+
+def rand_request(r, cov, unc):
+    """ops of the later request: covered letters, rand left alone (or set explicitly: then nothing is random)"""
+    ops = ["push " + hx(rand_text(r, cov, unc, 1, 12))]
+    if r.chance(1, 3): ops.append(f"dir {r.range(1, 2)}")
+    if r.chance(1, 3): ops.append("script Latn")
+    ops.append(f"level {r.below(3)}")
+    ops.append(f"flags {r.choice([0, 0, 1, 3])}")
+    return ops
 
 
 def sfnt_tables(path, index=0):
